@@ -3,6 +3,7 @@
 //
 //   commands (fields separated by TAB):
 //     R                      fresh datamodel instance (Factory::createDataModel("promela", <interpreter impl>)); answer "OK"
+//     Z                      self-test: blocks the first process that executes it (the supervisor must notice, kill and retry)
 //     T <ms>                 CPU-time watchdog for every following command (ITIMER_PROF in the executing process), 0 = off
 //     D <type> <loc> <expr>  DataModel::init(loc, data, {type}); <expr> empty -> empty Data (a <data> element without content),
 //                            "[..]"/"{..}" -> Data::fromJSON (element content), otherwise Data(expr, INTERPRETED) (expr="..")
@@ -37,6 +38,8 @@
 #include <vector>
 #include <cstring>
 #include <cerrno>
+#include <cstdio>
+#include <ctime>
 #include <unistd.h>
 #include <signal.h>
 #include <sys/time.h>
@@ -87,6 +90,11 @@ static void arm(long ms) {
 	setitimer(ITIMER_PROF, &it, NULL);
 }
 
+// A sanitizer report (symbolising a stack trace) can itself take more CPU time than the watchdog allows: once a report has
+// begun the process is dying anyway, so the watchdog is switched off (hooks provided by libasan / libubsan).
+extern "C" void __asan_on_error() { arm(0); }
+extern "C" void __ubsan_on_report() { arm(0); }
+
 static std::vector<std::string> split(const std::string& line) {
 	std::vector<std::string> f;
 	size_t p = 0;
@@ -107,6 +115,42 @@ static std::string fmtData(const Data& d) {
 
 static DataModel dm;
 static PromelaDataModel* pdm = NULL;
+
+static long cpuTicks(pid_t pid) {
+	char path[64], buf[1024];
+	snprintf(path, sizeof(path), "/proc/%d/stat", (int)pid);
+	FILE* f = fopen(path, "r");
+	if (!f) return -1;
+	size_t n = fread(buf, 1, sizeof(buf) - 1, f);
+	fclose(f);
+	buf[n] = 0;
+	char* p = strrchr(buf, ')');
+	if (!p) return -1;
+	long ut = 0, st = 0;
+	// fields after ")": state ppid pgrp session tty tpgid flags minflt cminflt majflt cmajflt utime stime
+	if (sscanf(p + 1, " %*c %*d %*d %*d %*d %*d %*u %*u %*u %*u %*u %ld %ld", &ut, &st) != 2) return -1;
+	return ut + st;
+}
+
+// waits for the child; false when it made no progress (no answer, no CPU tick) for about 3 seconds
+static bool waitChild(pid_t pid, int* status) {
+	long lastDone = -1, lastCpu = -1;
+	int idle = 0;
+	struct timespec ts = {0, 300000};   // 0.3 ms for the first 200 polls, then 50 ms
+	int polls = 0;
+	while (true) {
+		pid_t r = waitpid(pid, status, WNOHANG);
+		if (r == pid) return true;
+		if (r < 0 && errno != EINTR) return true;
+		nanosleep(&ts, NULL);
+		if (++polls < 200) continue;
+		ts.tv_nsec = 50000000;
+		long d = *done_counter, c = cpuTicks(pid);
+		if (d == lastDone && c == lastCpu) idle++; else idle = 0;
+		lastDone = d; lastCpu = c;
+		if (idle >= 60) return false;
+	}
+}
 
 static bool fresh(std::shared_ptr<InterpreterImpl> impl) {
 	dm = Factory::getInstance()->createDataModel("promela", impl.get());
@@ -143,6 +187,11 @@ static std::string execute(const std::vector<std::string>& f) {
 			return "@OK";
 		} else if (c == "L" && f.size() >= 2) {
 			pdm->evaluateDecl(f[1]);
+			return "@OK";
+		}
+		if (c == "Z") {
+			// self-test of the supervisor's stuck-child guard: the first process to get here blocks for good
+			if (done_counter && done_counter[1] == 0) { done_counter[1] = 1; while (true) pause(); }
 			return "@OK";
 		}
 		return "@BADCMD";
@@ -211,7 +260,7 @@ int main(int argc, char** argv) {
 	std::cout.flush();
 	say("@READY");
 
-	done_counter = (volatile long*)mmap(NULL, sizeof(long), PROT_READ | PROT_WRITE, MAP_SHARED | MAP_ANONYMOUS, -1, 0);
+	done_counter = (volatile long*)mmap(NULL, 2 * sizeof(long), PROT_READ | PROT_WRITE, MAP_SHARED | MAP_ANONYMOUS, -1, 0);
 	if (done_counter == MAP_FAILED) { say("@FATAL mmap"); return 3; }
 
 	std::vector<std::string> lines;
@@ -238,6 +287,7 @@ int main(int argc, char** argv) {
 	// the parent answers for k, remembers k as skipped and starts a new child, which first silently re-executes the
 	// state-changing commands since the last R (except skipped ones) to get the datamodel into the same state.
 	std::vector<bool> skipped(lines.size(), false);
+	int stuckRetries = 0;
 	size_t i = 0;
 	while (i < lines.size()) {
 		*done_counter = 0;
@@ -279,7 +329,17 @@ int main(int argc, char** argv) {
 			_exit(0);
 		}
 		int status = 0;
-		while (waitpid(pid, &status, 0) < 0 && errno == EINTR) {}
+		if (!waitChild(pid, &status)) {
+			// The child is blocked without using CPU and without answering. It has a single thread, so it cannot wait for
+			// anything but a lock inherited from the (multi-threaded: HTTP server, delay queue) parent at fork time - an
+			// artefact of fork under ASan, not an observation. Start over at the command it was about to answer.
+			kill(pid, SIGKILL);
+			while (waitpid(pid, &status, 0) < 0 && errno == EINTR) {}
+			i += (size_t)*done_counter;
+			mark("STUCK-RETRY", i);
+			if (++stuckRetries > 20) { say("@FATAL stuck children"); return 3; }
+			continue;
+		}
 		i += (size_t)*done_counter;
 		if (i >= lines.size())
 			break;
